@@ -144,7 +144,8 @@ func (sm Barrier_instance) Write_verilog(bmach *Bondmachine, so_index int, barri
 	result += "	end\n"
 	result += "\n"
 
-	result += "	always @ (posedge clock) begin\n"
+	// A single process clocked on the clk port drives done, timeout and counter
+	result += "	always @ (posedge clk) begin\n"
 	if has_tout {
 		result += "		if (done || timeout) begin\n"
 	} else {
@@ -156,18 +157,12 @@ func (sm Barrier_instance) Write_verilog(bmach *Bondmachine, so_index int, barri
 		result += "			counter <= " + toutzero + ";\n"
 	}
 	result += "		end\n"
-	result += "	end\n"
-	result += "\n"
 
 	if has_tout {
-		result += "	always @ (posedge clock) begin\n"
 		result += "		if (!done & !timeout & (" + orlist + "))\n"
 		result += "			counter <= counter + 1'b1;\n"
-		result += "	end\n"
-		result += "\n"
 	}
 
-	result += "	always @(posedge clock) begin\n"
 	result += "		if (" + andlist + ")\n"
 	result += "			done <= 1;\n"
 	if has_tout {
